@@ -40,6 +40,26 @@ CLAIMED = {
          "seeded search over hostile scripts (structure-aware mutations of valid CONNECT/INVOKE/PING/batch/blob messages: every header field at boundary values, inconsistent length fields, oversize, bad tag/version/magic, unknown serializer/type, flag combinations, undecodable payloads, malformed annotation chunks, prefix truncations, garbage, unknown objects/members, methods raising unserialisable or otherwise nasty exceptions), sent before/after the handshake, ended by close or RST, x pool sizes 1..4 (pool-full refusal path) x COMMTIMEOUT x fragmentation x selector order x schedules; oracle: every witness call returns its own token, the request loop is alive and a fresh client is served afterwards, no worker or selector slot is stranded, no server thread died",
          "samples scripts and schedules; hostile scripts always end in close/RST; RST-on-close-with-unread-data and SSL are not modelled",
          "DESIGN.md section 4 C05"),
+ "C06": ("exploration",
+         "deterministic simulation of the transport seam: encoded message streams delivered through a scripted socket (fragmentation, short MSG_WAITALL, retryable errnos, truncation+EOF/RST, in-flight byte/length mutations) into the real recv_stub/ReceivingMessage; lockstep comparison with an independent reference codec",
+         "seeded search over message fields at boundary values, payload sizes around the compression threshold / MAX_MESSAGE_SIZE / 60000-byte chunk, annotation sets, correlation ids, compression, MAX_MESSAGE_SIZE settings x transport fault scripts (every-offset truncation and byte-flip sweeps included) x mutated byte strings; oracle: decoded fields and consumed length equal the encoded ones (checked through to a sentinel), truncated input raises ConnectionClosedError, oversize is refused by sender and by receiver before the body is read, whatever is accepted is well-formed for the reference parser and re-encodes to an equivalent message, no hang",
+         "samples inputs and fault scripts; the field-value dimension is plain seeded generation, the simulator's contribution is fragmentation, truncation, transient errors and in-flight corruption; runs without python -O",
+         "DESIGN.md section 4 C06"),
+ "C08": ("exploration",
+         "deterministic simulation: real Daemon (both server types, configurable validateHandshake) with scripted raw peers and a legitimate Proxy over in-memory sockets; server->client direction recorded by the middlebox; execution log keyed by connection",
+         "seeded search over first messages (every type, pristine or mutated header fields, any serializer id, handshake payload shapes, unknown/known objects, truncations, garbage) x 0-3 pipelined requests in the same or later writes x validator behaviours (accept, raise five exception types, return None/large/unserialisable/dict) x both server types x COMMTIMEOUT x schedules; oracle: every execution of a registered object's or the daemon object's method happened after that connection's CONNECTOK, a refused peer first receives CONNECTFAIL with a non-empty (and for validator / unknown object: the right) reason, nothing after it, connection closed, legitimate client unaffected",
+         "samples; a reply is demanded only when the daemon could reach a verdict from the bytes sent and the peer stayed connected; pre-connected socket pairs are exempt by design and unused",
+         "DESIGN.md section 4 C08"),
+ "C12": ("exploration",
+         "deterministic simulation: several real client threads/proxies against a real Daemon (thread pool with 1-2 reused workers and line pre-emption in handleRequest, or multiplex) with a recording middlebox in both directions; seeded scheduler interleaves the clients",
+         "seeded search over multi-client histories (returning, raising, one-way, batch, property, ping, new handshakes; unique response annotation per call set by assignment or in-place mutation; with/without correlation ids) x server types x pool sizes x schedules; oracle: (1) the context each method observed equals its own request as the middlebox saw it (annotations, correlation id, seq, flags, serializer, connection, peer address), (2) every server->client message carries only annotations set by the call it answers (none on CONNECTOK/CONNECTFAIL/PING), (3) each client observes exactly its own reply's annotations",
+         "samples histories and schedules; Daemon.annotations() not overridden; pre-emption at source lines of handleRequest/_handshake/_sendExceptionResponse/_OnewayCallThread only",
+         "DESIGN.md section 4 C12"),
+ "C14": ("fault_enumeration",
+         "deterministic simulation of the storage seam: reference map, NameServer(MemoryStorage) and NameServer(SqlStorage on a real sqlite file) in lockstep over seeded histories; a counting/failing sqlite3 facade enumerates every statement of every mutating operation as failure point and as crash point (db+journal snapshot reopened)",
+         "seeded histories over a colliding alphabet (case pairs, SQL wildcards, regex metacharacters, unicode, empty string, the name server's own entry) with three-way comparison of every result and of the full listing after every mutation and reopen; in fault configuration, for EVERY execute/commit of every mutating operation: inject OperationalError -> NamingError and no effect after reopen; crash (abandon connection, reopen copied db+journal) -> state before or after the operation, never partial",
+         "histories are sampled, statement boundaries within a history are enumerated exhaustively; crash points are Python-level statement boundaries (sqlite's own journal is trusted); connect()/fetch never fail",
+         "DESIGN.md section 4 C14"),
 }
 PENDING = "claimed in DESIGN.md but its check is not built yet; see DESIGN.md section 4"
 ALL = ["C%02d" % i for i in range(1, 21)]
